@@ -7,7 +7,15 @@ package common
 // seeded by VERIF_SEED so that a disagreement replays exactly.
 type Rand struct{ s uint64 }
 
-func NewRand(seed uint64) *Rand { return &Rand{s: seed*0x9E3779B97F4A7C15 + 0x1234567} }
+func NewRand(seed uint64) *Rand {
+	// hash the seed: with s = seed·γ + c and step γ the stream of seed k would be the stream of
+	// seed 1 shifted by k-1 draws
+	z := seed + 0x1234567
+	z = (z ^ (z >> 30)) * 0xBF58476D1CE4E5B9
+	z = (z ^ (z >> 27)) * 0x94D049BB133111EB
+	z = (z ^ (z >> 31)) * 0xD6E8FEB86659FD93
+	return &Rand{s: z ^ (z >> 32)}
+}
 
 func (r *Rand) U64() uint64 {
 	r.s += 0x9E3779B97F4A7C15
